@@ -3,6 +3,7 @@ package props
 import (
 	"context"
 	"fmt"
+	"google.golang.org/grpc"
 
 	"github.com/avos-io/goat/gen/goatorepo"
 	"github.com/avos-io/goat/vh/env"
@@ -37,17 +38,45 @@ func withHdr(r *env.Rpc, k, v string) *env.Rpc {
 var c12Shapes = []c12Shape{
 	{name: "valid-unary", build: func(id uint64, tag string) *env.Rpc { return env.ReqUnary(id, tag, "x") }, unaryMust: true},
 	{name: "no-header", build: func(id uint64, tag string) *env.Rpc { r := env.ReqUnary(id, tag, "x"); r.Header = nil; return r }},
-	{name: "unparsable-method", build: func(id uint64, tag string) *env.Rpc { r := env.ReqUnary(id, tag, "x"); r.Header.Method = "nomethod"; return r }},
-	{name: "unknown-service", build: func(id uint64, tag string) *env.Rpc { r := env.ReqUnary(id, tag, "x"); r.Header.Method = "/no.Such/Unary"; return r }},
-	{name: "unknown-method", build: func(id uint64, tag string) *env.Rpc { r := env.ReqUnary(id, tag, "x"); r.Header.Method = "/verif.Svc/Nope"; return r }},
-	{name: "wrong-destination", build: func(id uint64, tag string) *env.Rpc { r := env.ReqUnary(id, tag, "x"); r.Header.Destination = "other"; return r }},
-	{name: "wrong-destination-open", build: func(id uint64, tag string) *env.Rpc { r := env.ReqOpen(id, env.MBidi, tag); r.Header.Destination = "other"; return r }},
+	{name: "unparsable-method", build: func(id uint64, tag string) *env.Rpc {
+		r := env.ReqUnary(id, tag, "x")
+		r.Header.Method = "nomethod"
+		return r
+	}},
+	{name: "unknown-service", build: func(id uint64, tag string) *env.Rpc {
+		r := env.ReqUnary(id, tag, "x")
+		r.Header.Method = "/no.Such/Unary"
+		return r
+	}},
+	{name: "unknown-method", build: func(id uint64, tag string) *env.Rpc {
+		r := env.ReqUnary(id, tag, "x")
+		r.Header.Method = "/verif.Svc/Nope"
+		return r
+	}},
+	{name: "wrong-destination", build: func(id uint64, tag string) *env.Rpc {
+		r := env.ReqUnary(id, tag, "x")
+		r.Header.Destination = "other"
+		return r
+	}},
+	{name: "wrong-destination-open", build: func(id uint64, tag string) *env.Rpc {
+		r := env.ReqOpen(id, env.MBidi, tag)
+		r.Header.Destination = "other"
+		return r
+	}},
 	{name: "unary-no-body", build: func(id uint64, tag string) *env.Rpc { r := env.ReqUnary(id, tag, "x"); r.Body = nil; return r }, unaryMay: true},
 	{name: "unary-bad-metadata", build: func(id uint64, tag string) *env.Rpc { r := env.ReqUnary(id, tag, "x"); badMD(r.Header); return r }},
-	{name: "unary-garbage-body", build: func(id uint64, tag string) *env.Rpc { r := env.ReqUnary(id, tag, "x"); r.Body.Data = []byte{0xff, 0xff, 0xff}; return r }, unaryMay: true},
+	{name: "unary-garbage-body", build: func(id uint64, tag string) *env.Rpc {
+		r := env.ReqUnary(id, tag, "x")
+		r.Body.Data = []byte{0xff, 0xff, 0xff}
+		return r
+	}, unaryMay: true},
 	{name: "unary-timeout", build: func(id uint64, tag string) *env.Rpc { return withHdr(env.ReqUnary(id, tag, "x"), "grpc-timeout", "1S") }, unaryMust: true},
 	{name: "unary-bad-timeout", build: func(id uint64, tag string) *env.Rpc { return withHdr(env.ReqUnary(id, tag, "x"), "GRPC-Timeout", "-x") }, unaryMust: true},
-	{name: "unary-with-trailer", build: func(id uint64, tag string) *env.Rpc { r := env.ReqUnary(id, tag, "x"); r.Trailer = &goatorepo.Trailer{}; return r }, unaryMust: true},
+	{name: "unary-with-trailer", build: func(id uint64, tag string) *env.Rpc {
+		r := env.ReqUnary(id, tag, "x")
+		r.Trailer = &goatorepo.Trailer{}
+		return r
+	}, unaryMust: true},
 	{name: "open-bidi", build: func(id uint64, tag string) *env.Rpc { return env.ReqOpen(id, env.MBidi, tag) }, opens: true},
 	{name: "open-sstream", build: func(id uint64, tag string) *env.Rpc { return env.ReqOpen(id, env.MSStream, tag) }, opens: true},
 	{name: "open-cstream", build: func(id uint64, tag string) *env.Rpc { return env.ReqOpen(id, env.MCStream, tag) }, opens: true},
@@ -61,7 +90,11 @@ var c12Shapes = []c12Shape{
 		r.Reset_ = &goatorepo.Reset{Type: "FOO"}
 		return r
 	}, opensMay: true},
-	{name: "body+trailer", build: func(id uint64, tag string) *env.Rpc { r := env.ReqBody(id, env.MBidi, tag); r.Trailer = &goatorepo.Trailer{}; return r }, body: true},
+	{name: "body+trailer", build: func(id uint64, tag string) *env.Rpc {
+		r := env.ReqBody(id, env.MBidi, tag)
+		r.Trailer = &goatorepo.Trailer{}
+		return r
+	}, body: true},
 	{name: "status-only", build: func(id uint64, tag string) *env.Rpc {
 		return &env.Rpc{Id: id, Header: env.ReqOpen(id, env.MBidi, tag).Header, Status: &goatorepo.ResponseStatus{Code: 3}}
 	}, opensMay: true},
@@ -93,6 +126,14 @@ func c12(tier string) []*explore.Scenario {
 		out = append(out, c12SeqT(si, 1, maxLen, 1, true))
 	}
 	out = append(out, c12Interference(1))
+	for _, where := range []string{"fresh-id", "open-stream", "half-closed-stream"} {
+		out = append(out, c12Product(where, 1))
+	}
+	if tier == "thorough" {
+		for _, where := range []string{"fresh-id", "open-stream"} {
+			out = append(out, c12Product(where, 2))
+		}
+	}
 	if tier == "thorough" {
 		for si := range c12Shapes {
 			out = append(out, c12Seq(si, 1, 2, 1))
@@ -360,6 +401,154 @@ func c12Interference(bound int) *explore.Scenario {
 			vsched.Quiesce()
 			if !d.ServeDone {
 				vsched.Fail(fam+"|serve-hang", "Serve did not return when the transport closed; threads: %s", threadList())
+			}
+		},
+	}
+}
+
+// c12Product: the full product of field shapes - header {valid for the
+// target, valid unary, wrong destination, unparsable method, unknown method,
+// absent} x body {absent, message, undecodable, empty} x trailer {absent,
+// present, with undecodable metadata} x status {absent, OK, error} x reset
+// {absent, RST_STREAM, unknown type} = 6*4*3*3*3 = 648 envelopes, n of them in
+// sequence, aimed at a fresh id, at the id of an open echoing stream, or at a
+// stream the peer has half-closed. Whatever arrives: no crash, Serve goes on,
+// an envelope whose header is not a well-formed request for this server leaves
+// an open stream untouched, later valid requests are served, Serve returns at close.
+func c12Product(where string, n int) *explore.Scenario {
+	fam := "C12/hostile"
+	return &explore.Scenario{
+		Name: fmt.Sprintf("C12/product/%s/len=%d", where, n), Family: fam, Prop: "C12", Bound: 0, MaxExecs: 3000000,
+		Run: func() {
+			w := env.NewWorld()
+			d := env.NewDirect(w, env.DirectOpts{Pipe: env.PipeOpts{Cap: 256}, NoClient: true})
+			vsched.GoNamed("peer-reader", func() {
+				for {
+					if _, err := d.Pipe.A.Read(context.Background()); err != nil {
+						return
+					}
+				}
+			})
+			vsched.Settle()
+			const id = 1
+			r := w.Rec("s", "Bidi")
+			w.Handlers["s"] = func(r *env.Rec, ss grpc.ServerStream) error { // echo until end of stream, then wait to be released
+				err := env.HEcho(r, ss)
+				return err
+			}
+			if where != "fresh-id" {
+				d.Pipe.A.Inject(env.ReqOpen(id, env.MBidi, "s"))
+				d.Pipe.A.Inject(env.ReqBody(id, env.MBidi, "one"))
+				if where == "half-closed-stream" {
+					// the handler here keeps the stream registered after the half-close
+					release := make(chan struct{})
+					defer close(release)
+					w.Handlers["s"] = func(r *env.Rec, ss grpc.ServerStream) error {
+						env.HEcho(r, ss)
+						<-release
+						return nil
+					}
+				}
+				vsched.Quiesce()
+				if where == "half-closed-stream" {
+					d.Pipe.A.Inject(env.ReqTrailer(id, env.MBidi))
+					vsched.Quiesce()
+				}
+			}
+			seq := ""
+			validForStream := true
+			for k := 0; k < n; k++ {
+				hk, bk, tk, sk, rk := vsched.Choose(6), vsched.Choose(4), vsched.Choose(3), vsched.Choose(3), vsched.Choose(3)
+				rpc := &env.Rpc{Id: id}
+				switch hk {
+				case 0:
+					rpc.Header = env.ReqBody(id, env.MBidi, "").Header
+				case 1:
+					rpc.Header = env.ReqUnary(id, "x", "").Header
+				case 2:
+					rpc.Header = env.ReqBody(id, env.MBidi, "").Header
+					rpc.Header.Destination = "someone-else"
+				case 3:
+					rpc.Header = env.ReqBody(id, env.MBidi, "").Header
+					rpc.Header.Method = "nomethod"
+				case 4:
+					rpc.Header = env.ReqBody(id, env.MBidi, "").Header
+					rpc.Header.Method = "/verif.Svc/Nope"
+				}
+				switch bk {
+				case 1:
+					rpc.Body = env.ReqBody(id, env.MBidi, fmt.Sprintf("X%d", k)).Body
+				case 2:
+					rpc.Body = &goatorepo.Body{Data: []byte{0xff, 0xff, 0xff}}
+				case 3:
+					rpc.Body = &goatorepo.Body{}
+				}
+				switch tk {
+				case 1:
+					rpc.Trailer = &goatorepo.Trailer{}
+				case 2:
+					rpc.Trailer = &goatorepo.Trailer{Metadata: []*goatorepo.KeyValue{{Key: "t-bin", Value: "!!bad!!"}}}
+				}
+				switch sk {
+				case 1:
+					rpc.Status = &goatorepo.ResponseStatus{Code: 0, Message: "OK"}
+				case 2:
+					rpc.Status = &goatorepo.ResponseStatus{Code: 9, Message: "bad"}
+				}
+				switch rk {
+				case 1:
+					rpc.Reset_ = &goatorepo.Reset{Type: "RST_STREAM"}
+				case 2:
+					rpc.Reset_ = &goatorepo.Reset{Type: "SOMETHING_ELSE"}
+				}
+				seq += fmt.Sprintf(" [h%d b%d t%d s%d r%d]", hk, bk, tk, sk, rk)
+				if hk == 0 || hk == 1 {
+					validForStream = false // a well-formed header: the envelope may legitimately act on the stream / start a call
+				}
+				if err := d.Pipe.A.Inject(rpc); err != nil {
+					vsched.Fail(fam+"|harness", "inject: %v", err)
+					return
+				}
+				vsched.Quiesce()
+				if d.ServeDone {
+					vsched.Fail(fam+"|serve-ended", "Serve returned (%v) after the peer sent%s (%s)", d.ServeErr, seq, where)
+					return
+				}
+			}
+			vsched.Obs("%s:%s | %s", where, seq, r.Summary())
+			if where == "open-stream" && validForStream {
+				// only envelopes that are not well-formed requests for this server arrived: the stream is untouched
+				d.Pipe.A.Inject(env.ReqBody(id, env.MBidi, "two"))
+				d.Pipe.A.Inject(env.ReqTrailer(id, env.MBidi))
+				vsched.Quiesce()
+				if !eqStrs(r.HRecv, []string{"one", "two"}) || !r.HReturned || r.HRet != nil || r.HStarts != 1 {
+					vsched.Fail(fam+"|open-stream-disturbed", "an open echoing stream was sent%s under its id - none a well-formed request for this server; afterwards its handler had received %v (want [one two]), returned=%v err=%v", seq, r.HRecv, r.HReturned, r.HRet)
+				}
+			}
+			if validForStream {
+				// none of the envelopes had a header that makes it a request for this server: no handler may have run for them
+				for _, s := range w.Stray {
+					vsched.Fail(fam+"|handler-for-malformed", "after%s (%s): a handler ran for %q", seq, where, s)
+				}
+			}
+			pu := w.Rec("probe-u", "Unary")
+			d.Pipe.A.Inject(env.ReqUnary(100, "probe-u", "x"))
+			ps := w.Rec("probe-s", "Bidi")
+			d.Pipe.A.Inject(env.ReqOpen(101, env.MBidi, "probe-s"))
+			d.Pipe.A.Inject(env.ReqBody(101, env.MBidi, "ping"))
+			d.Pipe.A.Inject(env.ReqTrailer(101, env.MBidi))
+			vsched.Quiesce()
+			if pu.HStarts != 1 || !hasUnaryReply(d, 100, "R:probe-u|x") {
+				vsched.Fail(fam+"|probe-unary", "after%s (%s): a valid unary request was not served", seq, where)
+			}
+			if ps.HStarts != 1 || !ps.HReturned || !eqStrs(ps.HRecv, []string{"ping"}) || !hasStreamEcho(d, 101) {
+				vsched.Fail(fam+"|probe-stream", "after%s (%s): a valid bidi stream was not served: %s", seq, where, ps.Summary())
+			}
+			d.Pipe.A.Break()
+			d.Pipe.B.Break()
+			vsched.Quiesce()
+			if !d.ServeDone && where != "half-closed-stream" {
+				vsched.Fail(fam+"|serve-hang", "after%s (%s): Serve did not return when the transport closed; threads: %s", seq, where, threadList())
 			}
 		},
 	}
